@@ -119,7 +119,10 @@ def try_refute(prop, v, repo, seed):
     if unit in ("F64", "F32"):
         return refute_field(64 if unit == "F64" else 32, name, repo, seed)
     if unit in ("S64", "S32"):
-        return refute_scalar(64 if unit == "S64" else 32, name, repo, seed)
+        r = refute_scalar(64 if unit == "S64" else 32, name, repo, seed)
+        return r if r is not None else refute_papi(unit, name, repo, seed)
+    if unit in ("ED", "RIS", "MONT", "SG", "SGR", "SM", "SIG", "FG"):
+        return refute_papi(unit, name, repo, seed)
     return None
 
 
@@ -254,3 +257,235 @@ if __name__ == "__main__":
     print(refute_scalar(64, "", "/repo", 1))
     print(refute_field(32, "", "/repo", 1))
     print(refute_scalar(32, "", "/repo", 1))
+
+
+# ======================================================================================================================
+# public-API replay (papi): used for units above the kernels (ED, RIS, MONT, SG, SM, SIG) when an obligation fails or the
+# extraction is undecided. Inputs: corner sets per family (non-canonical encodings, torsion / exceptional points, u = -1,
+# scalars around l, 2^252, 2^255) plus VERIF_SEED-seeded random ones; judged by vlib/oracle.py.
+def _build_papi(repo):
+    src = os.path.join(VERIF, "replay", "papi")
+    wd = os.path.join(VERIF, ".work", "replay-papi" + ("" if repo.rstrip("/") == "/repo" else "-alt"))
+    if os.path.exists(wd):
+        shutil.rmtree(wd)
+    shutil.copytree(src, wd, ignore=shutil.ignore_patterns("target", "Cargo.lock"))
+    p = os.path.join(wd, "Cargo.toml")
+    s = open(p).read().replace('"/repo/', '"%s/' % repo.rstrip("/"))
+    open(p, "w").write(s)
+    lock = os.path.join(repo, "Cargo.lock")
+    if os.path.exists(lock):
+        shutil.copy(lock, os.path.join(wd, "Cargo.lock"))
+    tdir = os.path.join(VERIF, ".work", "replay-target" + ("" if repo.rstrip("/") == "/repo" else "-alt"))
+    r = subprocess.run(["cargo", "build", "--offline", "--target-dir", tdir], cwd=wd, capture_output=True, text=True,
+                       env=dict(os.environ, CARGO_NET_OFFLINE="true"))
+    if r.returncode != 0:
+        return None
+    return os.path.join(tdir, "debug", "papi")
+
+
+def _h(b):
+    return b.hex() if len(b) else "-"
+
+
+def _enc_variants(rng, n_random=24):
+    """32-byte strings interesting for every decoder: canonical corners, non-canonical values in [p, 2^255), top bit set"""
+    from vlib import oracle as O
+    vals = [0, 1, 2, 3, 4, 5, 9, O.P - 1, O.P - 2, O.P, O.P + 1, O.P + 2, O.P + 3, O.P + 4, O.P + 5, O.P + 6, O.P + 18, 2**255 - 1, 2**255 - 20,
+            (O.P - 1) // 2, (O.P + 1) // 2, O.I, O.P - O.I, O.BY, 2**254, 2**252, O.L, O.L - 1]
+    out = []
+    for v in vals:
+        out.append((v % 2**256).to_bytes(32, "little"))
+        out.append(((v | 2**255) % 2**256).to_bytes(32, "little"))
+    for T in O.torsion_points():
+        e = O.ed_encode(T)
+        out.append(e)
+        n = int.from_bytes(e, "little")
+        out.append((n ^ 2**255).to_bytes(32, "little"))          # other sign bit
+        y = n & (2**255 - 1)
+        if y + O.P < 2**255:
+            out.append(((y + O.P) | (n & 2**255)).to_bytes(32, "little"))   # non-canonical y
+    for _ in range(n_random):
+        out.append(rng.randrange(0, 2**256).to_bytes(32, "little"))
+    seen, res = set(), []
+    for b in out:
+        if b not in seen:
+            seen.add(b); res.append(b)
+    return res
+
+
+def _scalars(rng, n_random=12):
+    from vlib import oracle as O
+    vals = [0, 1, 2, 8, 15, 16, 17, 127, 128, 255, 256, O.L - 1, O.L, O.L + 1, 2 * O.L, 2 * O.L + 1, 2**252 - 1, 2**252, 2**252 + 1, 2**253 - 1, 2**253,
+            2**254, 2**255 - 1, 2**255 - 8, 2**255 - 19, 2**256 - 1, 32, 2**230 + 127 * 2**200 + 3, 256 - 127,
+            int("8" * 64, 16) % 2**255, int("7" * 64, 16) % 2**255]
+    for _ in range(n_random):
+        vals.append(rng.randrange(0, 2**256))
+    return vals
+
+
+def refute_papi(unit, fn, repo, seed):
+    from vlib import oracle as O
+    binary = _build_papi(repo)
+    if binary is None:
+        return None
+    rng = random.Random(seed or 1)
+    encs = _enc_variants(rng)
+    reqs, exps = [], []
+
+    def add(rq, ex):
+        reqs.append(rq); exps.append(ex)
+
+    fams = {"ED": ["ed"], "RIS": ["ris"], "MONT": ["mont"], "SG": ["sc"], "S64": ["sc"], "S32": ["sc"], "SGR": ["sc", "edmul"], "SM": ["edmul"],
+            "SIG": ["sig"], "FG": ["ed", "ris"], "F64": ["ed"], "F32": ["ed"]}.get(unit, ["ed", "ris", "mont", "sc", "edmul", "sig"])
+    valid_pts = []
+    for b in encs:
+        a = O.ed_decode(b)
+        if a is not None:
+            valid_pts.append((b, a))
+    if "ed" in fams:
+        for b in encs:
+            a = O.ed_decode(b)
+            add("ed.decompress %s" % _h(b), "NONE" if a is None else _h(O.ed_encode(a)))
+        for (b1, a1) in valid_pts[:28]:
+            for (b2, a2) in valid_pts[:10]:
+                add("ed.add %s %s" % (_h(b1), _h(b2)), _h(O.ed_encode(O.ed_add(a1, a2))))
+                add("ed.sub %s %s" % (_h(b1), _h(b2)), _h(O.ed_encode(O.ed_add(a1, O.ed_neg(a2)))))
+                add("ed.eq %s %s" % (_h(b1), _h(b2)), "1" if a1 == a2 else "0")
+            add("ed.cofactor %s" % _h(b1), "%s %d %d" % (_h(O.ed_encode(O.ed_mul(8, a1))), 1 if O.ed_mul(8, a1) == O.ID else 0, 1 if O.ed_mul(O.L, a1) == O.ID else 0))
+            add("ed.to_montgomery %s" % _h(b1), _h(O.ed_to_mont(a1).to_bytes(32, "little")))
+    if "ris" in fams:
+        for b in encs:
+            d = O.r255_decode(b)
+            add("ris.decompress %s" % _h(b), "NONE" if d is None else _h(O.r255_encode(d)))
+        for k in range(6):
+            u = rng.randrange(0, 2**512).to_bytes(64, "little") if k else bytes(64)
+            add("ris.from_uniform %s" % _h(u), _h(O.r255_one_way(u)))
+    if "mont" in fams:
+        for b in encs:
+            for sgn in (0, 1):
+                a = O.mont_to_edwards(b, sgn)
+                add("mont.to_edwards %s %d" % (_h(b), sgn), "NONE" if a is None else _h(O.ed_encode(a)))
+            n = int.from_bytes(b, "little") & (2**255 - 1)
+            if n + O.P < 2**255:
+                b2 = (n + O.P).to_bytes(32, "little")
+                add("mont.eq %s %s" % (_h(b), _h(b2)), "1")
+                add("mont.hash %s" % _h(b), ("samehash", len(reqs) + 1))
+                add("mont.hash %s" % _h(b2), ("samehash", len(reqs) - 1))
+        ks = [rng.randrange(0, 2**256).to_bytes(32, "little") for _ in range(4)] + [bytes(32), b"\xff" * 32]
+        for k in ks:
+            for b in encs[:40]:
+                add("x25519 %s %s" % (_h(k), _h(b)), _h(O.x25519(k, b)))
+                shared = O.x25519(k, b)
+                add("x25519.static_dh %s %s" % (_h(k), _h(b)), "%s %d" % (_h(shared), 0 if shared == bytes(32) else 1))
+                add("mont.mul_clamped %s %s" % (_h(b), _h(k)), _h(O.x25519(k, b)))
+            add("x25519.public %s" % _h(k), _h(O.x25519(k, (9).to_bytes(32, "little"))))
+        for s in _scalars(rng, 4):
+            if s < 2**255:
+                for b in encs[:12]:
+                    u = int.from_bytes(b, "little") & (2**255 - 1)
+                    add("mont.mul %s %s" % (_h(b), _h(s.to_bytes(32, "little"))), _h(O.ladder(s, u).to_bytes(32, "little")))
+    if "sc" in fams:
+        for s in _scalars(rng):
+            b = (s % 2**256).to_bytes(32, "little")
+            v = s % 2**256
+            add("sc.from_canonical %s" % _h(b), _h(b) if v < O.L else "NONE")
+            add("sc.reduce32 %s" % _h(b), _h((v % O.L).to_bytes(32, "little")))
+            add("sc.neg %s" % _h(b), _h(((-v) % O.L).to_bytes(32, "little")))
+            add("sc.invert %s" % _h(b), _h(pow(v % O.L, O.L - 2, O.L).to_bytes(32, "little")) if v % O.L else ("any", 0))
+            w = (s * 2**256 + rng.randrange(0, 2**256)) % 2**512
+            add("sc.reduce64 %s" % _h(w.to_bytes(64, "little")), _h((w % O.L).to_bytes(32, "little")))
+            for t in _scalars(rng, 2)[:14]:
+                c = (t % 2**256).to_bytes(32, "little")
+                tv = t % 2**256
+                add("sc.add %s %s" % (_h(b), _h(c)), _h(((v + tv) % O.L).to_bytes(32, "little")))
+                add("sc.sub %s %s" % (_h(b), _h(c)), _h(((v - tv) % O.L).to_bytes(32, "little")))
+                add("sc.mul %s %s" % (_h(b), _h(c)), _h(((v * tv) % O.L).to_bytes(32, "little")))
+        add("sc.reduce64 %s" % ("ff" * 64), _h(((2**512 - 1) % O.L).to_bytes(32, "little")))
+    if "edmul" in fams:
+        pts = valid_pts[:6] + [(O.ed_encode(O.B), O.B)]
+        for s in _scalars(rng, 6):
+            if s >= 2**255:
+                continue
+            sb = s.to_bytes(32, "little")
+            add("ed.mul_base %s" % _h(sb), _h(O.ed_encode(O.ed_mul(s, O.B))))
+            for (b1, a1) in pts:
+                add("ed.mul %s %s" % (_h(b1), _h(sb)), _h(O.ed_encode(O.ed_mul(s, a1))))
+            for t in (1, 127, 2**255 - 1, O.L - 1, 2**253 + 5, 2**255 - 8):
+                (b1, a1) = pts[(s + t) % len(pts)]
+                add("ed.double_base %s %s %s" % (_h(b1), _h(sb), _h(t.to_bytes(32, "little"))),
+                    _h(O.ed_encode(O.ed_add(O.ed_mul(s, a1), O.ed_mul(t, O.B)))))
+        # multiscalar, small sizes and one Pippenger-size instance
+        for n in (0, 1, 2, 3, 190):
+            ss = [rng.randrange(0, O.L) for _ in range(n)]
+            pp = [pts[i % len(pts)] for i in range(n)]
+            acc = O.ID
+            for sc, (_, a1) in zip(ss, pp):
+                acc = O.ed_add(acc, O.ed_mul(sc, a1))
+            body = " ".join("%s %s" % (_h(b1), _h(sc.to_bytes(32, "little"))) for sc, (b1, _) in zip(ss, pp))
+            add(("ed.msm %d %s" % (n, body)).strip(), _h(O.ed_encode(acc)))
+            add(("ed.msm_vartime %d %s" % (n, body)).strip(), _h(O.ed_encode(acc)))
+            add(("ed.msm_opt %d %s" % (n, body)).strip(), _h(O.ed_encode(acc)))
+            if n >= 1:
+                body2 = "NONE " + body.split(" ", 1)[1]
+                add("ed.msm_opt %d %s" % (n, body2), "NONE")
+    if "sig" in fams:
+        seeds = [bytes([7]) * 32, rng.randrange(0, 2**256).to_bytes(32, "little")]
+        msgs = [b"", b"abc", bytes(range(64))]
+        tors = O.torsion_points()
+        for sd in seeds:
+            pk = O.public_key(sd)
+            add("sig.keypair %s" % _h(sd), _h(pk))
+            for m in msgs:
+                sg = O.sign(sd, m)
+                add("sig.sign %s %s" % (_h(sd), _h(m)), _h(sg))
+                Sv = int.from_bytes(sg[32:], "little")
+                variants = [sg, sg[:32] + ((Sv + O.L) % 2**256).to_bytes(32, "little"), sg[:32] + ((Sv + 2 * O.L) % 2**256).to_bytes(32, "little"),
+                            bytes([sg[0] ^ 1]) + sg[1:], sg[:63] + bytes([sg[63] ^ 0x80])]
+                # small-order R with S = k*a (accepted by plain verification, rejected by strict)
+                a, _ = O.expand(sd)
+                for T in tors[:3]:
+                    Rb = O.ed_encode(T)
+                    k = int.from_bytes(O.sha512(Rb, pk, m), "little") % O.L
+                    variants.append(Rb + ((k * a) % O.L).to_bytes(32, "little"))
+                for v in variants:
+                    for op, strict in (("sig.verify", False), ("sig.verify_strict", True)):
+                        r = O.verify(pk, v, m, strict=strict)
+                        add("%s %s %s %s" % (op, _h(pk), _h(v), _h(m)), "BADKEY" if r == "BADKEY" else ("1" if r else "0"))
+                    r = O.verify(pk, v, m, strict=True)
+                    add("sig.sk_verify_strict %s %s %s" % (_h(sd), _h(v), _h(m)), "1" if r else "0")
+                for ctx in (b"", b"ctx", b"A" * 255, b"A" * 256):
+                    if len(ctx) <= 255:
+                        sgp = O.sign(sd, m, ph_ctx=ctx)
+                        add("sig.sign_ph %s %s %s" % (_h(sd), _h(m), _h(ctx)), _h(sgp))
+                        for op, strict in (("sig.verify_ph", False), ("sig.verify_ph_strict", True)):
+                            add("%s %s %s %s %s" % (op, _h(pk), _h(sgp), _h(m), _h(ctx)), "1")
+                            add("%s %s %s %s %s" % (op, _h(pk), _h(sgp), _h(m), _h(ctx + b"x") if len(ctx) < 255 else _h(b"B" * 255)), "0")
+                    else:
+                        add("sig.sign_ph %s %s %s" % (_h(sd), _h(m), _h(ctx)), "ERR")
+                        add("sig.verify_ph %s %s %s %s" % (_h(pk), _h(sg), _h(m), _h(ctx)), "0")
+            # small-order / non-canonical public keys
+            for T in tors:
+                pkT = O.ed_encode(T)
+                sg0 = O.ed_encode(O.ID) + bytes(32)
+                for op, strict in (("sig.verify", False), ("sig.verify_strict", True)):
+                    r = O.verify(pkT, sg0, b"m", strict=strict)
+                    add("%s %s %s %s" % (op, _h(pkT), _h(sg0), _h(b"m")), "BADKEY" if r == "BADKEY" else ("1" if r else "0"))
+            add("sig.keypair_import %s" % _h(sd + pk), "1")
+            add("sig.keypair_import %s" % _h(sd + O.public_key(bytes([9]) * 32)), "0")
+    got = _ask(binary, reqs)
+    if len(got) != len(reqs):
+        return None
+    for i, (rq, ex, g) in enumerate(zip(reqs, exps, got)):
+        if g.startswith("PANIC"):
+            return {"kind": "panic (build with overflow checks and debug assertions)", "request": rq[:2000], "reply": g, "papi": True}
+        body = g[3:].strip()
+        if isinstance(ex, tuple):
+            if ex[0] == "samehash":
+                other = got[ex[1]][3:].strip() if 0 <= ex[1] < len(got) else body
+                if other != body:
+                    return {"kind": "Hash differs for two encodings of the same field element (equality is modulo p)", "request": rq, "reply": g,
+                            "other_request": reqs[ex[1]], "other_reply": got[ex[1]], "papi": True}
+            continue
+        if body != ex:
+            return {"kind": "wrong result", "request": rq[:2000], "reply": g[:400], "expected": ex, "oracle": "vlib/oracle.py (RFC 8032 / 7748 / 9496 in Python ints)", "papi": True}
+    return None
